@@ -42,7 +42,8 @@ CONFIGS = [(a, m) for a in (False, True) for m in (None, 0, 1, 3)]
 
 def gen(ctx):
     rng = ctx.rng
-    full = ctx.thorough
+    full = True
+    deep = ctx.thorough
     k = 0
 
     def emit(family, text, n=None):
@@ -63,9 +64,9 @@ def gen(ctx):
 
     for fam, text in docs.singles(rng, full):
         yield from emit(fam, text)
-    for fam, text in docs.object_product(rng, exhaustive=False, samples=4000 if full else 600):
+    for fam, text in docs.object_product(rng, exhaustive=False, samples=40000 if deep else 4000):
         yield from emit(fam, text)
-    for fam, text, n in docs.batches(rng, max_exhaustive_len=3 if full else 2, sampled=6000 if full else 800, max_len=5):
+    for fam, text, n in docs.batches(rng, max_exhaustive_len=3 if full else 2, sampled=80000 if deep else 6000, max_len=6 if deep else 5):
         yield from emit(fam, text, n)
 
 
